@@ -48,7 +48,7 @@ CRankT(s, v) == IF s = <<>> THEN 0 ELSE Head(v) * ProdT(Tail(s)) + CRankT(Tail(s
 RECURSIVE CUnrankT(_, _)
 CUnrankT(s, r) == IF s = <<>> THEN <<>> ELSE <<r \div ProdT(Tail(s))>> \o CUnrankT(Tail(s), r % ProdT(Tail(s)))
 Inside(s, v) == \A a \in 1..Len(s) : 0 <= v[a] /\ v[a] < s[a]
-\* expected destination tags: source array is arange over sshape \o trailing (trailing axes are carried along)
+\* expected destination values: e.data is the source array over sshape \o trailing in C order (trailing axes are carried along)
 WarpExpected(e) ==
   LET n == Len(e.sshape)
       full == e.dshape \o e.trailing
@@ -58,6 +58,6 @@ WarpExpected(e) ==
         LET idx == CUnrankT(full, k - 1)
             w == SubSeq(idx, 1, n)
             v == MatVec(Pinv, VecSub(w, e.t))
-        IN IF Inside(e.sshape, v) THEN 1 + CRankT(sfull, v \o SubSeq(idx, n + 1, Len(idx))) ELSE 0]
+        IN IF Inside(e.sshape, v) THEN e.data[1 + CRankT(sfull, v \o SubSeq(idx, n + 1, Len(idx)))] ELSE 0]
 AllFailingT(cl) == {cl[i][1] : i \in {j \in DOMAIN cl : ~cl[j][2]}}
 =============================================================================
